@@ -117,7 +117,15 @@ def answer (toks : List String) : List String :=
         let ok := (List.range m).all (fun i => (List.range m).all (fun j =>
           let a := vs.getD (i * m + j) ""; let b := vs.getD (j * m + i) ""
           a == b && a != "b7ff0000000000000" && a != "bfff0000000000000"))   -- NaN == NaN passes, Inf - Inf does not
-        if ok then ["O unf 1" ++ joinSp vs] else ["O unf 0"]
+        -- `setFromSymmetric`: diagonal copied, off-diagonal stored as `(m(i,j) + m(j,i))/2` in binary64 (overflows to ±Inf
+        -- for magnitudes above DBL_MAX/2)
+        let toF (t : String) : Float := if t == "nan" then (0.0 / 0.0) else hexToFloat (String.ofList (t.toList.drop 1))
+        let ofF (x : Float) : String := if x.isNaN then "nan" else "b" ++ floatToHex x
+        let out := (List.range (m * m)).map (fun idx =>
+          let i := idx / m; let j := idx % m
+          if i = j then vs.getD idx "" else
+          ofF ((toF (vs.getD (i * m + j) "") + toF (vs.getD (j * m + i) "")) / 2))
+        if ok then ["O unf 1" ++ joinSp out] else ["O unf 0"]
       | none => ["O unf 0"]
     else if kind == "R" then
       -- RowVector_: `Vector_<E> vt(~v); return readUnformatted(in, vt);` reads into a copy: success, nothing stored
